@@ -12,6 +12,9 @@
 EXTENDS FeigClient, Json, IOUtils
 
 Mode == IOEnv.GEN_MODE
+\* the implementation's time constants in seconds, measured by the driver: per-packet timeout and read_card margin
+Ppt == IF "GEN_PPT" \in DOMAIN IOEnv THEN atoi(IOEnv.GEN_PPT) ELSE 60
+Rcm == IF "GEN_RCM" \in DOMAIN IOEnv THEN atoi(IOEnv.GEN_RCM) ELSE 2
 Thorough == IF "GEN_THOROUGH" \in DOMAIN IOEnv THEN IOEnv.GEN_THOROUGH = "1" ELSE FALSE
 SetSeq(XS) == SetToSeq(XS)
 
@@ -140,7 +143,7 @@ FaultScenario(x) ==
                  \o [i \in 1..(n + 3) |-> OkPlan]
             ELSE IF x.k = "nocollapse" THEN << [o |-> "abort", code |-> 108, delay_ms |-> 1000 * x.to] >>
             ELSE IF x.k \in {"ontime", "late"}
-            THEN LET limit == IF op.name = "read_card" THEN 1000 * (x.to + 2) ELSE 60000 IN
+            THEN LET limit == IF op.name = "read_card" THEN 1000 * (x.to + Rcm) ELSE 1000 * Ppt IN
                  [i \in 1..Len(op.pre) |-> OkPlan] \o [i \in 1..(x.e - 1) |-> OkPlan]
                  \o << [o |-> "ok", status |-> [amount |-> <<1>>], uid |-> <<1, 2, 3, 4>>,
                          delay_ms |-> IF x.k = "ontime" THEN limit - 1000 ELSE limit + 1000] >>
